@@ -29,7 +29,7 @@ def _cpuinfo():
 
 def events(run, d):
     if d.get("outcome") != "ok":
-        return [{"ev": "failed", "origin": run["id"]}]
+        return [{"ev": "failed", "origin": run["id"], "outcome": d.get("outcome", "none"), "error": d.get("error", "")[:300]}]
     evs = []
     o = d["oracle"]
     st = d["streams"]
@@ -92,7 +92,7 @@ def events(run, d):
     return evs
 
 
-def _scenarios(quick, seed):
+def _scenarios(quick, seed, workdir="/tmp"):
     import random
     rnd = random.Random(seed)
     scns = []
@@ -107,7 +107,7 @@ def _scenarios(quick, seed):
         w = {"blamed": "main"}
         mode = k % 4
         if mode == 0:
-            tgt["linker_chain"] = {"names": ["", "/lib/libalpha.so.1", "/opt/ü/libβ.so", "libgamma.so"][: rnd.randrange(1, 5)]}
+            tgt["linker_chain"] = {"names": ["", "/lib/libalpha.so.1", "/opt/ü/libβ.so", "libgamma.so"][: rnd.randrange(1, 5)], "name_cross_page": k % 8 == 0}
             w["direct_auxv"] = "linker_chain"
         elif mode == 1:
             tgt["linker_chain"] = {"names": ["/only.so"]}
@@ -120,6 +120,16 @@ def _scenarios(quick, seed):
             tgt["threads"][0]["unshare_files"] = True
             w["blamed"] = {"slot": 0}
         scns.append({"id": f"proc/{k}", "target": tgt, "writer": w, "cleanup": tgt["open_files"]})
+    # mapped files whose names are not UTF-8 (file names are byte strings): the memory map, and with it the memory-info list, the
+    # raw copy and the module list, must still be produced
+    from . import p_total
+    for k, raw in enumerate([b"lib\xff\xfe.so", b"caf\xe9 latin1.so.1"]):
+        d = os.path.join(workdir, "nonutf8")
+        os.makedirs(d, exist_ok=True)
+        path = os.path.join(d, f"{k}_").encode() + raw
+        p_total.mkelf(os.path.join(d, "tmp.so"), "elf", idseed=77 + k)
+        os.replace(os.path.join(d, "tmp.so"), path)
+        scns.append({"id": f"proc/non-utf8-mapped-name/{k}", "target": dumps.base_target(1, file_maps=[{"path_hex": path.hex(), "off": 0, "len": 0x3000, "exec": True}]), "writer": {"blamed": "main"}, "cleanup": []})
     return scns
 
 
@@ -293,7 +303,7 @@ def c18(ck):
     mc = core.mc_or_die("ProcStreams", "MC_ProcStreams", workers=4, coverage=True, timeout=900)
     util.vacuity(ck, mc, "ProcStreams", ["AuxvResolve", "MemInfo", "Handles", "DsoWalk"])
     ck.add_mc(mc, "auxv resolution for every direct/proc combination of the four fields, memory-info list for every list of <= 2 lines over all 16 permission sets, handle sets, linker chain lengths with/without DT_DEBUG; invariants DirectFirst, OneEntryPerLine, HandlesBijective")
-    scns = _scenarios(quick, ck.seed)
+    scns = _scenarios(quick, ck.seed, ck.work)
     cross = dumps.cross_scenarios(quick, ck.seed)
     try:
         runs = dumps.run_scenarios(ck, scns + cross, "c18")
